@@ -106,6 +106,29 @@ def check_sf(ctx, sf_fn, rng, big_step=None):
         ctx.close("sf_amplitude", sf_fn(p64 * c, lags, step), g1 * c * c, 1e-12 * float(np.abs(g1).max()) * c * c, "structure_function:amplitude_scaling", wit)
 
 
+def check_sf_masked(ctx, sf_fn, rng):
+    """A phase given as a masked array (defined on a pupil, junk outside): every lag is the mean over the valid pairs only."""
+    rows, cols = int(rng.integers(12, 40)), int(rng.integers(12, 40))
+    lags, step = int(rng.integers(2, 5)), int(rng.integers(1, 3))
+    if lags * step + 1 > rows or (lags + 1) * step > cols:
+        return
+    data = np.cumsum(rng.standard_normal((rows, cols)), axis=0)
+    yy, xx = np.indices((rows, cols))
+    outside = ((yy - rows / 2.0) / (rows / 2.0)) ** 2 + ((xx - cols / 2.0) / (cols / 2.0)) ** 2 > 1.0
+    junk = np.where(outside, float(rng.choice([0.0, 1e3, -7.5])), data)
+    ph = np.ma.masked_array(junk, mask=outside)
+    got = np.ma.filled(sf_fn(ph, lags, step), np.nan)
+    want = np.zeros(lags)
+    for j in range(1, lags):
+        a, b = ph[:-j * step, :], ph[j * step:, :]
+        ok = ~(np.ma.getmaskarray(a) | np.ma.getmaskarray(b))
+        want[j] = float(((np.asarray(a.data) - np.asarray(b.data))[ok] ** 2).mean())
+    wit = {"shape": (rows, cols), "lags": lags, "step": step, "masked_fraction": float(outside.mean()), "value_under_mask": float(junk[outside][0]) if outside.any() else None}
+    ctx.case("structure_function_masked", key=("masked", rows, cols, lags, step, float(data[0, 0])), nontrivial=True, sample=wit)
+    ctx.count("masked_phase_cases")
+    ctx.close("sf_masked_phase", np.asarray(got, dtype=float), want, 1e-12 * (float(np.abs(want).max()) + 1e-300), "structure_function:definition:masked_array_phase", wit)
+
+
 def check_sf_ensemble(ctx, aotools, sf_fn, rng, N):
     """E[sf] over all draws = sum over unit draws of sf(screen(e_k)); compare with the exact discrete covariance."""
     delta = float(10 ** rng.uniform(-2, 0))
@@ -213,6 +236,8 @@ def run(ctx, spec):
     rng = ctx.rng
     for rep in range(spec["reps"]):
         check_sf(ctx, sf_fn, rng)
+        if rep % 5 == 0:
+            check_sf_masked(ctx, sf_fn, rng)
         check_tps(ctx, tps, rng)
     # every step from 6 to 200 over the shards (quick: 12 per shard; thorough: all), always including 49 / 98 / 103 / 107 / 161,
     # the first steps for which j * step * (1 / step) < j in double precision
